@@ -12,7 +12,10 @@ Decided:
          endpoint/render to the endpoint chain / render chain; the request chain wraps that core;
   R03.d  order: the three function lists are the middleware list in order filtered by presence only;
          merge_middlewares(old, new) = new ++ [m in old | not (m.unique and m in merged)], ValueError for a
-         unique non-reorderable duplicate; BoundRoute.__init__ calls it with old <- route, new <- binding app.
+         unique non-reorderable duplicate -- "merged" being the result *as it grows* (new and the old ones kept so
+         far; in a closed form: ``m in outer or m in old[:i]``), the elements taken from new never replaced, moved
+         or removed (every store / delete / mutating call / augmented assignment on the list or an alias is seen);
+         BoundRoute.__init__ calls it with old <- route, new <- binding app.
 Declined: behaviour of user middlewares; Python's exception unwinding (assumed, given R03.a).
 """
 from . import chain
